@@ -60,3 +60,16 @@ MANIFEST_ENTRY = dict(
     technique='CBMC code contracts (dfcc) on the real scalar functions; inline asm transliterated through an instruction table',
     text='Every overload of add/sub/mul/square/neg/inc/dec/mulScalar and the operators is verified against a functional postcondition for all 64-bit operand values and all aliasing patterns (35 units, full domain, no bound). The product is proved in linear witness form for every 128-bit (hi,lo) pair plus a machine-checked congruence lemma.',
     note='Trusted: the 9-entry x86 instruction table and GCC operand semantics (guarded by native translation validation), the exactness of the MUL instruction, CBMC/cadical, extraction rules; build configuration USE_MONTGOMERY==0.')
+
+LEMMAS = ['reduce_congruence', 'canon_unique']
+def extra_checks(rn, tier, ginfos):
+    from vf import lean
+    import os, json
+    r = lean.check_lemmas(LEMMAS)
+    if r.get('lean_failed'):
+        path = os.path.join(os.environ.get('VF_REPLAY_DIR', os.path.join(os.path.dirname(os.path.dirname(os.path.dirname(os.path.abspath(__file__)))), 'replay', 'out')), PROPERTY)
+        os.makedirs(path, exist_ok=True)
+        f = os.path.join(path, 'lean-lemmas.json')
+        json.dump(dict(property=PROPERTY, obligation='Lean lemmas ' + ', '.join(LEMMAS), verifier_output=r.get('lean_output', '')), open(f, 'w'), indent=1)
+        r['violations'] = ['VIOLATION property=%s replay=%s [Lean lemma no longer accepted] no-failing-input-found' % (PROPERTY, f)]
+    return r
